@@ -138,6 +138,61 @@ func compileTexts(texts map[string]string, order []string, feats []string, filte
 	return
 }
 
+// parseTexts parses a set once; compileTrees compiles parsed trees (the compiler works on the trees it is given:
+// whoever compiles the same trees again compiles what the first compilation left of them).
+func parseTexts(texts map[string]string) (map[string]*parse.Tree, string) {
+	trees := make(map[string]*parse.Tree)
+	names := make([]string, 0, len(texts))
+	for n := range texts {
+		names = append(names, n)
+	}
+	sort.Strings(names)
+	for _, n := range names {
+		var t *parse.Tree
+		var err error
+		pan, msg, _ := core.Guard(func() { t, err = parse.Parse(n+".yang", texts[n], nil) })
+		if pan {
+			return nil, "parse panic: " + msg
+		}
+		if err != nil {
+			return nil, err.Error()
+		}
+		trees[n] = t
+	}
+	return trees, ""
+}
+
+func compileTrees(trees map[string]*parse.Tree, feats []string, filter compile.SchemaFilter) (res compileResult) {
+	var fc compile.FeaturesChecker
+	if feats != nil {
+		fc = compile.FeaturesFromNames(true, feats...)
+	}
+	var ms schema.ModelSet
+	var err error
+	pan, msg, stack := core.Guard(func() { ms, err = compile.CompileParseTrees(nil, trees, fc, false, filter) })
+	if pan {
+		res.Panic, res.Stack = msg, stack
+		return
+	}
+	if err != nil {
+		res.Err = err.Error()
+		return
+	}
+	if ms == nil {
+		res.Err = "nil ModelSet without error"
+		return
+	}
+	res.MS = ms
+	pan, msg, stack = core.Guard(func() {
+		res.DumpRoot = dump.ModelSet(ms)
+		res.Dump = res.DumpRoot.String()
+	})
+	if pan {
+		res.Panic, res.Stack = "dump: "+msg, stack
+	}
+	return
+}
+
 func firstDiff(a, b string) string {
 	la, lb := splitLines(a), splitLines(b)
 	for i := 0; i < len(la) || i < len(lb); i++ {
